@@ -160,8 +160,18 @@ def _kwarg_only_forwarded(fn):
     return len(uses) == len(fwd) and all(isinstance(u.ctx, ast.Load) for u in uses)
 
 
+def _vararg_only_forwarded(fn):
+    """the *args parameter is used only as `*args` in calls (forwarded as a whole, never read or changed)"""
+    va = fn.args.vararg.arg
+    uses = [x for x in ast.walk(fn) if isinstance(x, ast.Name) and x.id == va]
+    fwd = [a for c in ast.walk(fn) if isinstance(c, ast.Call) for a in c.args if isinstance(a, ast.Starred) and isinstance(a.value, ast.Name) and a.value.id == va]
+    return len(uses) == len(fwd) and all(isinstance(u.ctx, ast.Load) for u in uses)
+
+
 def _basic_ok(fn: ast.FunctionDef):
-    if fn.decorator_list or fn.args.vararg:
+    if fn.decorator_list:
+        return False
+    if fn.args.vararg and not _vararg_only_forwarded(fn):
         return False
     if fn.args.kwarg and not _kwarg_only_forwarded(fn):
         return False
@@ -267,9 +277,57 @@ def _simple(e):
     return isinstance(e, (ast.Name, ast.Constant))
 
 
+def module_bindings(tree, rel):
+    """top-level name -> origin: 'import:<module>' / 'from:<level>:<module>:<name>' / 'local:<rel>:<name>' (several bindings: 'ambiguous')"""
+    out = {}
+
+    def put(name, origin):
+        out[name] = origin if out.get(name, origin) == origin else "ambiguous"
+    for n in tree.body:
+        if isinstance(n, ast.Import):
+            for a in n.names:
+                put((a.asname or a.name).split(".")[0], f"import:{a.name if a.asname else a.name.split('.')[0]}")
+        elif isinstance(n, ast.ImportFrom):
+            for a in n.names:
+                put(a.asname or a.name, f"from:{(n.module or '').split('.')[-1]}:{a.name}")
+        elif isinstance(n, (ast.FunctionDef, ast.ClassDef)):
+            put(n.name, f"local:{rel}:{n.name}")
+        elif isinstance(n, (ast.Assign, ast.AnnAssign)):
+            for t in (n.targets if isinstance(n, ast.Assign) else [n.target]):
+                for x in ast.walk(t):
+                    if isinstance(x, ast.Name):
+                        put(x.id, f"local:{rel}:{x.id}")
+        else:
+            for x in ast.walk(n):
+                if isinstance(x, ast.Name) and isinstance(x.ctx, ast.Store):
+                    out[x.id] = "ambiguous"
+                elif isinstance(x, (ast.Import, ast.ImportFrom)):
+                    for a in x.names:
+                        out[(a.asname or a.name).split(".")[0]] = "ambiguous"
+    return out
+
+
+def free_globals(fn):
+    """names a function reads that are neither its parameters nor its locals nor builtins"""
+    import builtins
+    params, stored, imported = _locals_of(fn)
+    bound = set(params) | stored | imported | {a.arg for a in (fn.args.vararg, fn.args.kwarg) if a}
+    for x in ast.walk(fn):
+        if isinstance(x, (ast.comprehension,)):
+            bound |= {y.id for y in ast.walk(x.target) if isinstance(y, ast.Name)}
+        if isinstance(x, ast.Lambda):
+            bound |= {a.arg for a in x.args.args}
+    return {x.id for x in ast.walk(fn) if isinstance(x, ast.Name) and isinstance(x.ctx, ast.Load) and x.id not in bound and not hasattr(builtins, x.id)}
+
+
 class Inliner:
-    def __init__(self, rel, tree, inventory, other_class_methods):
+    def __init__(self, rel, tree, inventory, other_class_methods, foreign=None, bindings=None):
         self.rel, self.tree, self.inv = rel, tree, inventory
+        # helpers defined elsewhere in the package (not part of the reference tree, name unique in the whole tree):
+        #   name -> (FunctionDef, owner ClassDef | None, home rel, home bindings);  bindings: rel -> module_bindings
+        self.foreign = foreign or {}
+        self.bindings = bindings or {}
+        self._foreign_ok = {}
         self.funcs = module_functions(tree)
         self.other_class_methods = other_class_methods      # method names defined by classes elsewhere (dispatch could differ)
         self.counter = 0
@@ -366,7 +424,36 @@ class Inliner:
             q = f"{owner.name}.{f.attr}"
             if q in self.helpers and f.attr not in self.other_class_methods.get(owner.name, set()):
                 return q
-        return None
+        return self._foreign_target(call)
+
+    def _foreign_target(self, call):
+        """a helper defined in another module / a method called on something other than `self`: its name is unique in the whole tree and it is
+        not part of the reference tree, so the call can only mean that definition; every global name its body reads must mean the same
+        thing in this module (same import), else the body cannot be written out here"""
+        f = call.func
+        if isinstance(f, ast.Name) and f.id in self.foreign and self.foreign[f.id][1] is None:
+            name = f.id
+            mine = self.bindings.get(self.rel, {}).get(name, "")
+            if not (mine.startswith("from:") and mine.endswith(":" + name)):
+                return None
+        elif isinstance(f, ast.Attribute) and isinstance(f.value, ast.Name) and f.attr in self.foreign and self.foreign[f.attr][1] is not None:
+            name = f.attr
+        else:
+            return None
+        if name not in self._foreign_ok:
+            fn, owner, home, hb = self.foreign[name]
+            here = self.bindings.get(self.rel, {})
+            ok = True
+            for g in free_globals(fn):
+                a, b = hb.get(g), here.get(g)
+                if a is None or a == "ambiguous" or a != b:
+                    ok = False
+            if isinstance(f, ast.Attribute) and f.value.id == "self" and home == self.rel:
+                ok = False           # the same-class path decides (dispatch safety is judged there)
+            self._foreign_ok[name] = ok
+            if ok:
+                self.helpers["@" + name] = (fn, owner)
+        return "@" + name if self._foreign_ok[name] else None
 
     @staticmethod
     def _only_starred(fn, p):
@@ -387,10 +474,20 @@ class Inliner:
         if owner is not None:
             if not pos or pos[0] != "self":
                 raise NotInlinable("method without self")
+            if isinstance(call.func, ast.Attribute) and isinstance(call.func.value, ast.Name) and call.func.value.id != "self":
+                self_name = call.func.value.id          # `obj.helper(..)`: the body is written out with `obj` for `self`
+                if any(isinstance(x, ast.Name) and x.id == self_name and isinstance(x.ctx, ast.Store) for x in ast.walk(fn)):
+                    raise NotInlinable("receiver name is a local of the method")
             binding["self"] = ast.Name(id="self", ctx=ast.Load())
             pos_rest = pos[1:]
         else:
             pos_rest = pos
+        extra_pos = None
+        if fn.args.vararg is not None:
+            extra_pos = args[len(pos_rest):]     # goes into *args, which the helper only forwards: written out at the forwarding call
+            if not all(isinstance(a, (ast.Name, ast.Constant)) for a in extra_pos):
+                raise NotInlinable("computed star argument")
+            args = args[:len(pos_rest)]
         if len(args) > len(pos_rest):
             raise NotInlinable("too many arguments")
         for p, a in zip(pos_rest, args):
@@ -429,6 +526,8 @@ class Inliner:
                 raise NotInlinable("method rebinds self")
             ren["self"] = self_name
         star_sub = {}
+        if extra_pos is not None:
+            star_sub[fn.args.vararg.arg] = extra_pos
         for p in order:
             a = binding[p]
             if p not in stored and isinstance(a, (ast.Constant, ast.Name)):
@@ -449,6 +548,7 @@ class Inliner:
         else:
             new = _structure(body, "__inl_result__" if mode == "value" else None)
         mod_ = ast.Module(body=new, type_ignores=[])
+        _Subst(ren, sub).visit(mod_)        # before the caller's own names are written into the forwarding calls below
         if fn.args.kwarg is not None or star_sub:
             kwname = fn.args.kwarg.arg if fn.args.kwarg is not None else None
             for c in ast.walk(mod_):
@@ -469,7 +569,6 @@ class Inliner:
                             else:
                                 args_.append(a_)
                         c.args = args_
-        _Subst(ren, sub).visit(mod_)
         _Fold().visit(mod_)
         if mode == "value":
             # the caller's target is not a local of the helper: it is put in after the helper's locals were renamed
@@ -1570,6 +1669,26 @@ def build_inlined_tree(src_root, dst_root):
                         defined.setdefault(m.name, set()).add((rel, n.name))
     report = {"inlined": {}, "removed": [], "kept": []}
     changed = set()
+    # helpers that may be written out in another module / at a call on another receiver: not part of the reference tree, name unique among
+    # all definitions of the tree, owner class (if any) part of the reference tree, not recursive
+    bindings = {rel: module_bindings(t, rel) for rel, t in trees.items()}
+    def_count = {}
+    for rel, t in trees.items():
+        for x in ast.walk(t):
+            if isinstance(x, (ast.FunctionDef, ast.AsyncFunctionDef, ast.ClassDef)):
+                def_count[x.name] = def_count.get(x.name, 0) + 1
+    foreign = {}
+    for rel, t in trees.items():
+        for q, (fn, owner) in module_functions(t).items():
+            if "#" in q or f"{rel}:{q}" in inv or def_count.get(fn.name, 0) != 1 or not _basic_ok(fn) or (fn.name.startswith("__") and fn.name.endswith("__")):
+                continue
+            if owner is not None and (f"{rel}:class {owner.name}" not in inv or not fn.args.args or fn.args.args[0].arg != "self"):
+                continue
+            if any(isinstance(x, (ast.Name, ast.Attribute)) and getattr(x, "id", getattr(x, "attr", None)) == fn.name for x in ast.walk(fn)):
+                continue
+            if any(any(isinstance(x, ast.Name) and x.id == fn.name and isinstance(x.ctx, ast.Store) for x in ast.walk(t2)) for t2 in trees.values()):
+                continue
+            foreign[fn.name] = (fn, owner, rel, bindings[rel])
     for rel, t in trees.items():
         other = {}
         for n in t.body:
@@ -1586,7 +1705,7 @@ def build_inlined_tree(src_root, dst_root):
                     t.body.insert(idx_, fn_)
                 else:
                     report["removed"].append(f"{rel}:{fn_.name}")
-        inl = Inliner(rel, t, inv, other)
+        inl = Inliner(rel, t, inv, other, foreign, bindings)
         recs = record_classes(t, rel, inv)
         has_closures = any(Inliner._direct_nested(fn_) for fn_, _o in inl.funcs.values())
         done = inl.run()
@@ -1611,10 +1730,43 @@ def build_inlined_tree(src_root, dst_root):
                             t.body.insert(idx, node)
                         else:
                             report["removed"].append(f"{rel}:class {cname}")
+    # helpers written out in other modules: dead once nothing but import lines mentions them
+    for name in sorted({k.split(":@", 1)[1] for k in report["inlined"] if ":@" in k}):
+        fn, owner, home, _hb = foreign[name]
+        holder = trees[home] if owner is None else owner
+        if fn not in holder.body:
+            continue
+        idx = holder.body.index(fn)
+        holder.body.remove(fn)
+        used = False
+        for t2 in trees.values():
+            for x in ast.walk(t2):
+                if (isinstance(x, ast.Name) and x.id == name) or (isinstance(x, ast.Attribute) and x.attr == name) or (isinstance(x, ast.Constant) and x.value == name):
+                    used = True
+        if used:
+            holder.body.insert(idx, fn)
+            report["kept"].append(f"{home}:{name}")
+            continue
+        report["removed"].append(f"{home}:{name}")
+        changed.add(home)
+        if not holder.body:
+            holder.body.append(ast.Pass())
+        for rel2, t2 in trees.items():
+            for imp in [x for x in ast.walk(t2) if isinstance(x, ast.ImportFrom) and any(a.name == name for a in x.names)]:
+                imp.names = [a for a in imp.names if a.name != name]
+                changed.add(rel2)
+                if not imp.names:
+                    for blk_owner in ast.walk(t2):
+                        for f_ in ("body", "orelse", "finalbody"):
+                            blk = getattr(blk_owner, f_, None)
+                            if isinstance(blk, list) and imp in blk:
+                                blk.remove(imp)
+                                if not blk:
+                                    blk.append(ast.Pass())
     # remove helpers that are no longer referenced anywhere
     for rel in sorted(changed):
         t = trees[rel]
-        for q in [k.split(":", 1)[1] for k in report["inlined"] if k.startswith(rel + ":")]:
+        for q in [k.split(":", 1)[1] for k in report["inlined"] if k.startswith(rel + ":") and ":@" not in k]:
             name = q.split(".")[-1]
             if name.startswith("__") and name.endswith("__"):
                 continue            # special methods are referenced implicitly; their class goes as a whole (below) or stays
